@@ -36,7 +36,8 @@
    message counts as a notification when it is a request); null params are read as absent by the
    member parser: the message denoted is canon (norm m). *)
 From Coq Require Import List NArith ZArith Bool.
-From JV Require Import Bytes Json JsonProofs JsonPrint JsonTree JsonEq Msg Wire WireProofs WireSpecs WireMore.
+From JV Require Import Bytes Json JsonProofs JsonPrint JsonTree JsonEq Msg Wire WireProofs WireSpecs WireMore WireLink.
+From JV Require SrvModel SrvLemmas CliModel CliLemmas.
 Import ListNotations.
 Local Open Scope N_scope.
 
@@ -304,3 +305,56 @@ Theorem c13_error_data_json_equal : forall (m : jmsg) (b : bytes) (e : werr), ms
              (we_data e <> [] -> we_data e' <> [] /\ parse (we_data e') = parse (we_data e) /\ parse (we_data e) <> None).
 Proof. exact error_data_json_equal. Qed.
 Print Assumptions c13_error_data_json_equal.
+
+(* -- "every message the library emits": the transition models linked to the encoder (wire/WireLink.v) -- *)
+
+(* what the encoder writes for a non-empty list of messages is one complete JSON-RPC message: a JSON
+   object or a non-empty array of objects (also C10's "whole messages", at byte level) *)
+Theorem c13_emitted_record_is_message : forall (batch : bool) (ms : list jmsg) (b : bytes),
+  ms <> [] -> Forall (msg_rt_at' 1) ms -> enc_msgs batch ms = Some b ->
+  is_message_json b /\ Json.valid b = true /\
+  parse_msgs b = InMsgs (batch || (1 <? length ms)%nat) (map (fun m => canon (norm m)) ms).
+Proof. exact msgs_message_json. Qed.
+Print Assumptions c13_emitted_record_is_message.
+
+(* server responses: every OSend of every window of every reachable state *)
+Theorem c13_server_sends_messages : forall wild c s l s' os ok b rs,
+  SrvLemmas.reach c s -> SrvModel.step s l = Some (s', os) -> In (SrvModel.OSend ok b rs) os ->
+  rs <> [] /\
+  (Forall (rsp_rt wild) rs ->
+   exists bytes, enc_msgs b (map (jmsg_of_rsp wild) rs) = Some bytes /\
+     is_message_json bytes /\ Json.valid bytes = true /\
+     parse_msgs bytes = InMsgs (b || (1 <? length rs)%nat) (map (fun r => canon (jmsg_of_rsp wild r)) rs)).
+Proof. exact srv_send_bytes. Qed.
+Print Assumptions c13_server_sends_messages.
+
+(* server pushes: the id is absent (Notify) or a decimal number literal (Callback) *)
+Theorem c13_server_pushes_messages : forall s l s' os ok id m p,
+  SrvModel.step s l = Some (s', os) -> In (SrvModel.OSendReq ok id m p) os ->
+  (id = [] \/ is_num_lit id = true) /\
+  (req_rt 0 m p ->
+   exists bytes, enc_msg (jmsg_of_req id m p) = Some bytes /\ is_message_json bytes /\ Json.valid bytes = true /\
+     parse_msgs bytes = InMsgs false [canon (norm (jmsg_of_req id m p))]).
+Proof. exact srv_sendreq_bytes. Qed.
+Print Assumptions c13_server_pushes_messages.
+
+(* client requests and batches: at least one member, flag = "not exactly one", ids absent or number literals *)
+Theorem c13_client_sends_messages : forall c s l s' os ok batch ms,
+  CliLemmas.reach c s -> CliModel.step s l = Some (s', os) -> In (CliModel.OSendReq ok batch ms) os ->
+  ms <> [] /\ batch = negb (length ms =? 1)%nat /\
+  Forall (fun mem => fst (fst mem) = [] \/ is_num_lit (fst (fst mem)) = true) ms /\
+  (Forall (fun mem => req_rt 1 (snd (fst mem)) (snd mem)) ms ->
+   exists bytes, enc_msgs batch (map jmsg_of_mem ms) = Some bytes /\
+     is_message_json bytes /\ Json.valid bytes = true /\
+     parse_msgs bytes = InMsgs batch (map (fun mem => canon (norm (jmsg_of_mem mem))) ms)).
+Proof. exact cli_sendreq_bytes. Qed.
+Print Assumptions c13_client_sends_messages.
+
+(* client replies to server callbacks *)
+Theorem c13_client_callback_replies : forall s l s' os ok id o,
+  CliModel.step s l = Some (s', os) -> In (CliModel.OSendRsp ok id o) os ->
+  id_rt' id -> cbout_rt o ->
+  exists bytes, enc_msg (jmsg_of_cbout id o) = Some bytes /\ is_message_json bytes /\ Json.valid bytes = true /\
+    parse_msgs bytes = InMsgs false [canon (jmsg_of_cbout id o)].
+Proof. exact cli_sendrsp_bytes. Qed.
+Print Assumptions c13_client_callback_replies.
